@@ -67,6 +67,10 @@ type Contract struct {
 	Impl     string // "Type.Method": this function (or closure) must satisfy that interface contract
 	Lets     []*UseSpec
 	Running  []*Clause // checked and then assumed after every statement of the body
+	CallSite []*Clause // obligations at every call site, evaluated in the caller's scope with the formals bound to the arguments
+	ModAll   bool      // "modifies *": everything reachable from the receiver / pointer arguments and all ghost state may change
+	FromTemplate bool // instantiated from a methods block
+	Template bool      // "methods (*T)": default contract of every method of T without a contract of its own
 	Trusted  bool      // contract assumed, body not verified (listed in evidence)
 	Pure     bool
 	File     string
@@ -129,6 +133,7 @@ var sawRuneStart bool
 var sawLineFns bool
 
 type ContractSet struct {
+	Templates map[string]*Contract // pkg.Recv -> default contract of the methods of Recv
 	Pools     map[string]*PoolDirective
 	LangDirs  []*LangDirective
 	Contracts map[string]*Contract
@@ -138,6 +143,7 @@ type ContractSet struct {
 }
 
 var funcHdr = regexp.MustCompile(`^func\s+(?:\(\s*\*?\s*([A-Za-z_][A-Za-z0-9_]*)\s*\)\s*)?([A-Za-z_][A-Za-z0-9_$]*(?:/[A-Za-z0-9_]+)?)\s*(?:\[([^\]]*)\])?\s*$`)
+var methodsHdr = regexp.MustCompile(`^methods\s+\(\s*\*?\s*([A-Za-z_][A-Za-z0-9_]*)\s*\)\s*(?:\[([^\]]*)\])?\s*$`)
 var specHdr = regexp.MustCompile(`^spec\s+([A-Za-z_][A-Za-z0-9_]*)\s*\(([^)]*)\)\s*=\s*(.*)$`)
 var lemmaHdr = regexp.MustCompile(`^lemma\s+([A-Za-z_][A-Za-z0-9_]*)\s*\(([^)]*)\)\s*(?:\[([^\]]*)\])?\s*:\s*(.*)$`)
 
@@ -145,7 +151,7 @@ var langHdr = regexp.MustCompile(`^lang\s+([A-Za-z_][A-Za-z0-9_]*)\s*=\s*([a-z]+
 
 var poolHdr = regexp.MustCompile(`^pool\s+([A-Za-z_][A-Za-z0-9_]*)\s+(\S+)\s*:\s*(.*)$`)
 
-var clauseKeywords = []string{"func", "spec", "lemma", "lang", "pool", "interface", "implements", "let", "running", "assume", "requires", "ensures", "modifies", "loop", "use", "assert", "inline", "trusted", "pure"}
+var clauseKeywords = []string{"methods", "callsite", "func", "spec", "lemma", "lang", "pool", "interface", "implements", "let", "running", "assume", "requires", "ensures", "modifies", "loop", "use", "assert", "inline", "trusted", "pure"}
 
 func startsKeyword(s string) string {
 	for _, k := range clauseKeywords {
@@ -394,6 +400,21 @@ func (cs *ContractSet) parse(src, file, pkgPath string) {
 			return &Clause{Props: props, Text: text, Expr: e, Line: rc.line, File: file}
 		}
 		switch kw {
+		case "methods":
+			m := methodsHdr.FindStringSubmatch(rc.text)
+			if m == nil {
+				cs.errf(file, rc.line, "bad methods header %q", rc.text)
+				cur = nil
+				continue
+			}
+			cur = &Contract{Pkg: pkgPath, Recv: m[1], Name: "*", Template: true, Loops: map[int]*LoopSpec{}, File: file, Line: rc.line}
+			for _, p := range strings.FieldsFunc(m[2], func(r rune) bool { return r == ',' || r == ' ' }) {
+				cur.Props = append(cur.Props, p)
+			}
+			if cs.Templates == nil {
+				cs.Templates = map[string]*Contract{}
+			}
+			cs.Templates[pkgPath+"."+m[1]] = cur
 		case "func":
 			m := funcHdr.FindStringSubmatch(rc.text)
 			if m == nil {
@@ -506,6 +527,11 @@ func (cs *ContractSet) parse(src, file, pkgPath string) {
 				if c := mkClause(rest); c != nil {
 					cur.Requires = append(cur.Requires, c)
 				}
+			case "callsite":
+				// callsite requires <expr>
+				if c := mkClause(strings.TrimSpace(strings.TrimPrefix(rest, "requires"))); c != nil {
+					cur.CallSite = append(cur.CallSite, c)
+				}
 			case "ensures":
 				if c := mkClause(rest); c != nil {
 					cur.Ensures = append(cur.Ensures, c)
@@ -518,6 +544,10 @@ func (cs *ContractSet) parse(src, file, pkgPath string) {
 				for _, p := range splitTopLevel(rest, ',') {
 					p = strings.TrimSpace(p)
 					if p == "" {
+						continue
+					}
+					if p == "*" {
+						cur.ModAll = true
 						continue
 					}
 					e, err := parser.ParseExpr(p)
